@@ -1200,7 +1200,7 @@ pub fn c15_checks() -> Vec<Box<dyn DynCheck>> {
 
 // ------------------------------------------------------------------------------ C17
 
-pub const C17_RULE: &str = "model-based histories on few-piece and opening positions with a shuffle-biased policy (Reverse = play the mover's previous move backwards, so positions recur; Move/Quiet for triangulation; rook/king excursions that lose castling rights; double steps creating en-passant opportunities) and interleaved undos: every position is registered as it arises (turn flipped by the caller first, as the game loops do) and unregistered before its move is undone. Oracle: reference multiset keyed by (placement, side to move, castling rights, en-passant target): count_current_position() == occurrences after insertion, uncount_current_position() == occurrences after removal, max_seen_position_count() == last reported count. Where the literal en-passant-target reading and the FIDE reading (target only counts if a capture is possible) give different counts the step is not asserted (counted as ep-ambiguous). Game level: shuffle games through Game::from_board / apply_chess_move_by_from_to_coordinates / toggle_turn: check_game_over_for_current_turn() on non-terminal positions must be Draw iff the current position has now occurred three times (or the half-move clock reached 100). Engine games: the engine plays both sides through make_waterfall_book_then_alpha_beta_move from tiny endgames (every move legal, successor exact, draw verdict iff third occurrence). Non-trivial = history has a true recurrence (count >= 2) and a look-alike (same placement with the other side to move or other rights/ep); distinct = hash of the op sequence.";
+pub const C17_RULE: &str = "model-based histories on few-piece and opening positions with a shuffle-biased policy (Reverse = play the mover's previous move backwards, so positions recur; Move/Quiet for triangulation; rook/king excursions that lose castling rights; double steps creating en-passant opportunities) and interleaved undos: every position is registered as it arises (turn flipped by the caller first, as the game loops do) and unregistered before its move is undone. Oracle: reference multiset keyed by (placement, side to move, castling rights, en-passant target): count_current_position() == occurrences after insertion, uncount_current_position() == occurrences after removal, max_seen_position_count() == last reported count. Where the literal en-passant-target reading and the FIDE reading (target only counts if a capture is possible) give different counts the step is not asserted (counted as ep-ambiguous). Game level: shuffle games through Game::from_board / apply_chess_move_by_from_to_coordinates / toggle_turn: check_game_over_for_current_turn() on non-terminal positions must be Draw iff the current position has now occurred three times (or the half-move clock reached 100). Mixed games from the standard start: engine moves (opening book first) and typed shuffling moves on one Game. Engine games: the engine plays both sides through make_waterfall_book_then_alpha_beta_move from tiny endgames (every move legal, successor exact, draw verdict iff third occurrence). Non-trivial = history has a true recurrence (count >= 2) and a look-alike (same placement with the other side to move or other rights/ep); distinct = hash of the op sequence.";
 
 #[derive(Clone, Debug, Serialize, Deserialize, PartialEq)]
 pub enum ROp {
@@ -1777,8 +1777,136 @@ impl Prop for C16GameApi {
     }
 }
 
+/// From the standard start: some moves are made by the engine (opening book first, then search)
+/// through make_waterfall_book_then_alpha_beta_move, the others are typed with a shuffling
+/// policy, all on one Game. Every position counts, whoever produced it.
+#[derive(Clone, Debug, Serialize, Deserialize)]
+pub struct MixedCase {
+    /// None = the engine moves, Some(op) = a typed move
+    pub ops: Vec<Option<ROp>>,
+}
+
+pub struct C17MixedGame;
+impl Prop for C17MixedGame {
+    type Case = MixedCase;
+    fn name(&self) -> &'static str {
+        "C17/mixed-game"
+    }
+    fn max_shrink_iters(&self) -> u32 {
+        150
+    }
+    fn strategy(&self, _tier: Tier) -> BoxedStrategy<MixedCase> {
+        prop::collection::vec(
+            prop_oneof![
+                3 => Just(None),
+                2 => any::<u16>().prop_map(|s| Some(ROp::Quiet(s))),
+                1 => any::<u16>().prop_map(|s| Some(ROp::Move(s))),
+                8 => Just(Some(ROp::Reverse)),
+            ],
+            6..40,
+        )
+        .prop_map(|ops| MixedCase { ops })
+        .boxed()
+    }
+    fn cases(&self, tier: Tier) -> u32 {
+        tier.pick(320, 8_000)
+    }
+    fn test(&self, c: &MixedCase, st: &mut Stats) -> TestResult {
+        let mut cur = Pos::start();
+        let mut game = Game::new(1);
+        let book = Book::default();
+        let mut lit: BTreeMap<Key, u32> = BTreeMap::new();
+        let mut fide: BTreeMap<Key, u32> = BTreeMap::new();
+        lit.insert(key_literal(&cur), 1);
+        fide.insert(key_fide(&cur), 1);
+        let mut history: Vec<Mv> = Vec::new();
+        let mut book_moves = 0u32;
+        let mut max_count = 1;
+        for op in &c.ops {
+            let legal = cur.legal_moves();
+            if legal.is_empty() {
+                break;
+            }
+            let played = match op {
+                None => {
+                    let in_book = !book_children(&book, &history).is_empty();
+                    let m = match no_panic(|| game.make_waterfall_book_then_alpha_beta_move()) {
+                        Ok(Ok(m)) => mv_of(&m),
+                        Ok(Err(e)) => return Err(fail_pos(format!("the engine could not make a move: {:?}", e), &cur)),
+                        Err(m) => return Err(fail_pos(format!("making the engine's move panicked: {}", m), &cur)),
+                    };
+                    if !legal.contains(&m) {
+                        return Err(fail_pos(format!("the engine made {}, which is not legal", mv_text(&m)), &cur));
+                    }
+                    if in_book {
+                        book_moves += 1;
+                    }
+                    m
+                }
+                Some(rop) => {
+                    let own_last = if history.len() >= 2 { Some(&history[history.len() - 2]) } else { None };
+                    let m = match choose_rep(&cur, &legal, rop, own_last) {
+                        Some(m) => m,
+                        None => continue,
+                    };
+                    let pm = game
+                        .apply_chess_move_by_from_to_coordinates(bb(m.from), bb(m.to))
+                        .map_err(|e| fail_pos(format!("legal move {} rejected by the game: {:?}", mv_text(&m), e), &cur))?;
+                    mv_of(&pm)
+                }
+            };
+            game.board_mut().toggle_turn();
+            cur = cur.make(&played);
+            history.push(played);
+            let a = {
+                let e = lit.entry(key_literal(&cur)).or_insert(0);
+                *e += 1;
+                *e
+            };
+            let b = {
+                let e = fide.entry(key_fide(&cur)).or_insert(0);
+                *e += 1;
+                *e
+            };
+            max_count = max_count.max(a);
+            if cur.legal_moves().is_empty() {
+                break;
+            }
+            let ending = game.check_game_over_for_current_turn();
+            let is_draw = matches!(ending, Some(GameEnding::Draw));
+            st.count("mixed_game_positions", 1);
+            if a != b {
+                if is_draw {
+                    break;
+                }
+                continue;
+            }
+            let want = a >= 3 || cur.half >= 100;
+            if is_draw != want {
+                return Err(fail_pos(
+                    format!(
+                        "after {} moves (engine and typed) the current position has occurred {} time(s), but check_game_over_for_current_turn() = {:?}",
+                        history.len(),
+                        a,
+                        ending
+                    ),
+                    &cur,
+                ));
+            }
+            if want {
+                break;
+            }
+        }
+        if max_count >= 2 && book_moves >= 1 {
+            st.label(if max_count >= 3 { "third-occurrence-after-book-moves" } else { "recurrence-after-book-moves" });
+            st.nontrivial(fp_of(c), || json!({"moves": history.iter().map(notation::uci).collect::<Vec<_>>().join(" "), "engine_book_moves": book_moves}));
+        }
+        Ok(())
+    }
+}
+
 pub fn c17_checks() -> Vec<Box<dyn DynCheck>> {
-    vec![Box::new(C17Board), Box::new(C17Game), Box::new(C17EngineGame)]
+    vec![Box::new(C17Board), Box::new(C17Game), Box::new(C17EngineGame), Box::new(C17MixedGame)]
 }
 
 #[allow(dead_code)]
